@@ -3082,6 +3082,9 @@ static void build_stmt(WorkList *list, ScopeStack *scopes, ASTNode *stmt, int in
                 emit_literal(list, "; ");
                 emit_literal(list, var);
                 emit_literal(list, "++) ");
+                /* The loop variable shadows any constant of the same name: register it so
+                 * that the body does not get the constant's value inlined */
+                env_define_var_with_type_info(env, var, TYPE_INT, TYPE_UNKNOWN, NULL, false, create_void());
                 build_stmt(list, scopes, stmt->as.for_stmt.body, indent, env, fn_registry);
             } else {
                 /* Fallback for non-range for loops */
